@@ -24,7 +24,7 @@ func TestTqvWitness(t *testing.T) {
 		}
 	}
 	long := strings.Repeat("x", 255)
-	argSets := [][]string{nil, {"service=shell"}, {"task_id=7", "", "cmd=show"}, {"", ""}, {"service=shell", "cmd=" + strings.Repeat("y", 251)}}
+	argSets := [][]string{nil, {"service=shell"}, {"task_id=7", "", "cmd=show"}, {"", ""}, {"service=shell", "cmd=" + strings.Repeat("y", 251)}, {"priv-lvl=15 ", " autocmd=show version", "idletime=5"}}
 	strs := []string{"", "u", "bob", long}
 	n := 0
 	check := func(name string, v EncoderDecoder, fresh func() EncoderDecoder, want []byte) {
